@@ -127,6 +127,12 @@ def main():
         np = os.path.join(a.src, 'notes.md')
         if os.path.exists(np):
             notes = open(np).read()
+        old = {}
+        if os.path.exists(os.path.join(dst, 'meta.json')):
+            try:
+                old = json.load(open(os.path.join(dst, 'meta.json')))
+            except Exception:
+                old = {}
         meta = {
             'id': a.seed_id,
             'breaks_property': a.prop,
@@ -145,6 +151,14 @@ def main():
             'checks': report['checks'],
             'detected_by': report['detected_by'],
         }
+        if a.skip_suite and old.get('confirmation', {}).get(
+                'test_suite_with_change'):
+            # re-evaluation after a check was strengthened: the suite result
+            # of the first, full confirmation still stands
+            meta['confirmation'] = old['confirmation']
+            meta['earlier_verdicts'] = old.get('earlier_verdicts', []) + [
+                {'checks': old.get('checks'),
+                 'detected_by': old.get('detected_by')}]
         with open(os.path.join(dst, 'meta.json'), 'w') as f:
             json.dump(meta, f, indent=1)
     return 0 if confirmed else 3
